@@ -82,6 +82,10 @@ pub struct MirrorCase {
     /// a specific clause that never matches: the upstream body must still run for every call
     #[serde(default)]
     pub catch_all_default: bool,
+    /// clones of the mock that merely exist while the script is driven (e.g. handed to worker threads or helper
+    /// objects) and are dropped before the original ends: they must not change what any method does
+    #[serde(default)]
+    pub bystander_clones: u8,
 }
 
 /// Script state shared by the mock's answer functions and by the plain struct.
@@ -523,6 +527,7 @@ fn run_mock(c: &MirrorCase) -> (String, Vec<String>) {
         _ => 100,
     };
     let mut u = mock_for(&s, max_duty, c.partial, c.catch_all_default);
+    let bystanders: Vec<Unimock> = (0..c.bystander_clones).map(|_| u.clone()).collect();
     let out = match &c.drive {
         d @ (Drive::WriteAll(_) | Drive::WriteFmt(..) | Drive::WriteVectored(_) | Drive::ReadExact(_) | Drive::ReadToEnd | Drive::ReadToString
         | Drive::ReadVectored(_) | Drive::ReadLine | Drive::ReadUntil(_) | Drive::SeekRewind | Drive::SeekStreamPosition) => {
@@ -581,6 +586,7 @@ fn run_mock(c: &MirrorCase) -> (String, Vec<String>) {
         }
         Drive::Pwm(sel, _, x) => pwm_drive(&mut u, *sel, *x),
     };
+    drop(bystanders);
     match c.finish % 3 {
         1 => {
             use std::process::Termination;
@@ -744,7 +750,7 @@ pub fn check(c: &MirrorCase) -> Result<CaseInfo, String> {
         Drive::SpiTransferInPlace(_) => "SpiDevice::transfer_in_place",
         Drive::Pwm(..) => "SetDutyCycle::set_duty_cycle_*",
     };
-    Ok(CaseInfo::new(short || plain.1.len() >= 2).class(name).class_if(short, "short-transfer-or-error-in-script").class_if(c.partial, "partial-mock").class_if(c.finish % 3 == 1, "ended-by-report()").class_if(c.finish % 3 == 2, "ended-by-verify()").class_if(c.catch_all_default, "catch-all-applies_default_impl-clauses"))
+    Ok(CaseInfo::new(short || plain.1.len() >= 2).class(name).class_if(short, "short-transfer-or-error-in-script").class_if(c.partial, "partial-mock").class_if(c.finish % 3 == 1, "ended-by-report()").class_if(c.finish % 3 == 2, "ended-by-verify()").class_if(c.catch_all_default, "catch-all-applies_default_impl-clauses").class_if(c.bystander_clones >= 5, "five-or-more-live-clones-during-the-drive").class_if((1..5).contains(&c.bystander_clones), "1-4-live-clones-during-the-drive"))
 }
 
 fn step_strategy() -> impl Strategy<Value = Step> {
@@ -790,8 +796,9 @@ pub fn case_strategy() -> impl Strategy<Value = MirrorCase> {
         any::<bool>(),
         0..3u8,
         proptest::bool::weighted(0.3),
+        prop_oneof![3 => Just(0u8), 1 => 1..=4u8, 1 => 5..=16u8],
     )
-        .prop_map(|(script, data, drive, partial, finish, catch_all_default)| MirrorCase { script, data, drive, partial, finish, catch_all_default })
+        .prop_map(|(script, data, drive, partial, finish, catch_all_default, bystander_clones)| MirrorCase { script, data, drive, partial, finish, catch_all_default, bystander_clones })
 }
 
 // ------------------------------------------------------------------ wiring sweep
@@ -1330,7 +1337,7 @@ pub fn wiring_sweep(partial: bool) -> Vec<(&'static str, Result<(), String>)> {
     out
 }
 
-pub const RULE: &str = "scripts = generated scripts of chunk sizes / short transfers / Interrupted and other errors / payload bytes, replayed by the mocked required methods of std::io::{Write, Read, BufRead, Seek}, core Hasher and Display, embedded-hal {DelayNs, OutputPin, StatefulOutputPin, I2c, SpiDevice, SetDutyCycle}, each driven through an upstream provided method (write_all, write_fmt, write_vectored, read_exact, read_to_end, read_to_string, read_vectored, read_line, read_until, rewind, stream_position, write_u8..write_isize, format! with width/fill, delay_us/ms incl. the overflow-splitting range, set_state, toggle, read/write/write_read, read/write/transfer/transfer_in_place, set_duty_cycle_fully_off/on/fraction/percent); wiring = one entry point configured at a time for every method of the mirrored traits, required and provided (mocked directly) (incl. tokio and futures-io poll_* methods and their vectored defaults), enumerated. Non-trivial = the script has a short transfer or error before completion, or >= 2 required-method calls; distinct = distinct case";
+pub const RULE: &str = "scripts = generated scripts of chunk sizes / short transfers / Interrupted and other errors / payload bytes, replayed by the mocked required methods of std::io::{Write, Read, BufRead, Seek}, core Hasher and Display, embedded-hal {DelayNs, OutputPin, StatefulOutputPin, I2c, SpiDevice, SetDutyCycle}, each driven through an upstream provided method (write_all, write_fmt, write_vectored, read_exact, read_to_end, read_to_string, read_vectored, read_line, read_until, rewind, stream_position, write_u8..write_isize, format! with width/fill, delay_us/ms incl. the overflow-splitting range, set_state, toggle, read/write/write_read, read/write/transfer/transfer_in_place, set_duty_cycle_fully_off/on/fraction/percent), on strict and partial mocks, with 0-16 further clones of the mock alive during the drive, optionally catch-all applies_default_impl() clauses, ended by drop / report() / verify(); wiring = one entry point configured at a time for every method of the mirrored traits, required and provided (mocked directly) (incl. tokio and futures-io poll_* methods and their vectored defaults), enumerated. Non-trivial = the script has a short transfer or error before completion, or >= 2 required-method calls; distinct = distinct case";
 
 pub fn run(ctx: &Ctx) -> Verdict {
     let mut v = Verdict::new("exploration", RULE);
